@@ -319,6 +319,10 @@ def _leaf_function(w, rng, samples=True):
     cls = rng.choice([SmoothConvexFunction, ConvexFunction])
     f = w.problem.declare_function(cls, L=2.) if cls is SmoothConvexFunction else w.problem.declare_function(cls)
     if samples:
+        if rng.random() < 0.35:
+            # a sample recorded at a COMBINATION that reduces to a leaf (momentum started with x_prev = x0, a step of size 0): the leaf itself is the same point
+            x0, x1 = w.leaf_points[0], w.leaf_points[1]
+            f.oracle(rng.choice([x0 * 1, x0 + x1 - x1, x0 - x1 * 0]))
         for p in rng.sample(w.leaf_points, rng.choice([0, 1, 2])):
             f.oracle(p)
         if rng.random() < 0.4:
